@@ -202,9 +202,6 @@ fn leg_strings(ctx: &Ctx, out: &mut Out) {
     }
 }
 
-pub fn hex(b: &[u8]) -> String {
-    b.iter().map(|x| format!("{x:02x}")).collect()
-}
 
 fn check_string(bytes: &[u8], out: &mut Out) -> Option<(String, String)> {
     let bits = bytes_to_bits(bytes);
